@@ -670,3 +670,6 @@ func ruleExecKeptFresh(c *Ctx) {
 func init() {
 	register("C05", ruleC15Range, ruleC15Trichotomy, ruleC15ExactDomain, ruleC15Dispatch, ruleC12UnwrapTable)
 }
+
+// a sanitised numeric argument is read back by the engine's literal evaluator: its table is part of C16's round trip
+func init() { register("C16", ruleLiteralTable) }
